@@ -16,6 +16,10 @@
    - long-running process (cn_common.run_session): more than 1024 resp. more than 65 536 DISTINCT (network, hypothesis)
      additions in one process, two failing calls, then the same additions again - every recorded addition must satisfy the
      statement whatever the process did before.
+   - interleaved reads (reads_cases): the caller LOOKS at the network between two additions - get_pivot, best_cn_path,
+     sorted_cn_paths on the still unnormalised network, normalize_cn / sorted_cn_paths / add_hypothese on a deep copy - and goes on
+     adding to the object it holds.  ConfusionNet_Trace!TRead: after every query the network is the network of the last addition
+     (same arcs, same weights); the next addition is judged by the ordinary step clause on the raw weights.
 """
 import random
 
@@ -61,10 +65,12 @@ def boh_configs(ctx):
     return q
 
 
-def nbest_histories(ctx, n):
+def nbest_histories(ctx, n, rng=None):
     """seeded histories beyond the TLC bounds: 3-5 variants of one base string of length 3-5 over {a,b,c} (0-2 edits each: insertions
     at the start / middle / end, deletions, substitutions), scores 1-3 - the shape of an n-best list"""
     out = []
+    if rng is not None:
+        ctx = type("Rng", (), {"rng": rng})()
     for _ in range(n):
         k = ctx.rng.choice([2, 3])
         base = [ctx.rng.randint(1, k) for _ in range(ctx.rng.randint(3, 5))]
@@ -96,6 +102,44 @@ def session_specs(ctx):
              "rec1": 60 if quick else 1452, "rec2": 400 if quick else 1000000, "head": 0.3},
             {"name": "70928-distinct", "alphabet": 4, "maxlen": 4, "bases": 208, "base_lens": [3, 4, 4, 5], "seed": ctx.seed * 7 + 2,
              "rec1": 30 if quick else 600, "rec2": 200 if quick else 3000, "head": 0.0625}]
+
+
+READ_PATTERNS = 7
+
+
+def _reads_plan(rng, k, n):
+    """which queries after which of the n additions (pattern k); every pattern looks at the network at least once BEFORE a further
+    addition, on a network that is not normalised"""
+    ops = list(C.READERS)
+    if k == 0:          # everything, after every addition
+        return [list(ops) for _ in range(n)]
+    if k == 1:          # one enumeration after the first addition only
+        return [["sorted_cn_paths"]] + [[] for _ in range(n - 1)]
+    if k == 2:
+        return [["best_cn_path"] for _ in range(n)]
+    if k == 3:
+        return [["get_pivot"] for _ in range(n)]
+    if k == 4:          # the paths after every addition but the last
+        return [["sorted_cn_paths"] for _ in range(n - 1)] + [[]]
+    if k == 5:          # what-if on copies
+        return [["normalize_copy", "paths_of_normalized_copy", "add_on_copy"] for _ in range(n)]
+    plan = [rng.sample(ops, rng.randint(0, 3)) for _ in range(n)]
+    if not any(plan[:-1]):
+        plan[0] = [rng.choice(ops)]
+    return plan
+
+
+def reads_cases(ctx, rng):
+    """histories of the design bounds (first hypothesis not '': that history is the open known finding) and n-best-like ones, each
+    with queries between the additions"""
+    quick = ctx.tier == "quick"
+    b = {"alphabet": 2, "maxlen": 2, "adds": 3, "scores": [1, 2]} if quick else {"alphabet": 2, "maxlen": 3, "adds": 3, "scores": [1, 2]}
+    pool = [c for c in C.add_histories(b["alphabet"], b["maxlen"], b["adds"], b["scores"]) if len(c["hyps"][0]["h"]) > 0]
+    cases = rng.sample(pool, min(len(pool), 280 if quick else 2400))
+    cases += nbest_histories(ctx, 40 if quick else 400, rng=rng)
+    for i, c in enumerate(cases):
+        c["reads_plan"] = _reads_plan(rng, i % READ_PATTERNS, len(c["hyps"]))
+    return cases
 
 
 def _needs_sort(case):
@@ -136,10 +180,31 @@ def _sample(ctx, cases, frac):
     return ctx.rng.sample(cases, k), False
 
 
+RD = 10000       # progress = RD * matched queries + 10 * accepted additions + finished final stages (ConfusionNet_Trace!TAccept)
+
+
+def _decode(tr, prog):
+    """-> (accepted additions, finished final stages, the recorded query at which the validation stopped or None)"""
+    rd, base = prog // RD, prog % RD
+    step, stage = base // 10, base % 10
+    reads = tr.get("reads") or []
+    upto = sum(len(r) for r in reads[:step])
+    if stage == 0 and 1 <= step <= len(reads) and rd < upto:
+        here = reads[step - 1]
+        return step, stage, here[rd - (upto - len(here))]
+    return step, stage, None
+
+
+def _read_sig(read):
+    return "read:%s:%s" % (read["op"], "network-changed" if read["outcome"] == "ok" else read["outcome"])
+
+
 def signature(tr, prog):
     """canonical class of a rejected history"""
-    step, stage = prog // 10, prog % 10
+    step, stage, read = _decode(tr, prog)
     n = len(tr["hyps"])
+    if read is not None:
+        return _read_sig(read)
     if step < n:
         if tr["outcome"][step] != "ok":
             return "add:%s" % tr["outcome"][step]
@@ -159,6 +224,8 @@ def signature_of(tr, prog):
         return "long-running-process:pass%d:%s" % (tr["session"]["pass"], sig)
     if "reuse" in tr:
         return "long-lived-bag:%s:%s" % (tr["reuse"]["kind"], sig)
+    if "reads_plan" in tr:
+        return "interleaved-reads:" + sig
     return sig
 
 
@@ -174,20 +241,28 @@ def _context(tr):
         return ("[long-lived bag filled in the order %s, exported, re-ordered with sort(), exported again: last network and normalised "
                 "network are exports of that bag, the networks before from fresh bags] "
                 % [C.text_of(h["h"]) for h in tr["reuse"]["orig"]])
+    if "reads_plan" in tr:
+        return "[the caller looks at the network between the additions and goes on with the object it holds: queries %s] " % tr["reads_plan"]
     return ""
 
 
 def signature_later(tr, prog):
-    step, stage = prog // 10, prog % 10
+    step, stage, read = _decode(tr, prog)
+    if read is not None:
+        return _read_sig(read)
     if step < len(tr["hyps"]):
         return "add:%s" % tr["outcome"][step] if tr["outcome"][step] != "ok" else "add:step-rejected"
     return ["normalize", "paths", "single-hypothesis", "done"][stage]
 
 
 def describe(tr, prog):
-    step, stage = prog // 10, prog % 10
+    step, stage, read = _decode(tr, prog)
     n = len(tr["hyps"])
     hs = [(C.text_of(h["h"]), C.score_of(h, tr["vw"], tr["lw"])) for h in tr["hyps"]]
+    if read is not None:
+        return (_context(tr) + "history %s: after addition %d the network was %s; after the query %s (%s) the object the caller holds is %s - "
+                "a query must leave the network as it is (the weights already added are rescaled / lost for the additions that follow)"
+                % (hs, step, _show(tr["nets"][step - 1]), read["op"], read["outcome"], _show(read["net"])))
     if step < n:
         prev = tr["nets"][step - 1] if step else []
         return (_context(tr) + "addition %d of history %s (%s): network %s -> %s does not keep the readable strings / make the new hypothesis "
@@ -213,7 +288,7 @@ def judge(ctx, consts, traces, label, shards=None):
     # histories rejected at the open known finding are validated again with the deviation modelled as an action, so that the
     # rest of the history (later additions, normalisation, path enumeration) is still judged; what is rejected there is a
     # different violation and gets its own signature
-    kf = [(i, p) for i, p in rej if p != DRIFT and signature(traces[i], p) == "add:first-hypothesis-empty"]
+    kf = [(i, p) for i, p in rej if p % RD != DRIFT and signature(traces[i], p) == "add:first-hypothesis-empty"]
     later = {}
     if kf:
         sub = [traces[i] for i, _ in kf]
@@ -221,17 +296,18 @@ def judge(ctx, consts, traces, label, shards=None):
         _, rej2 = ctx.validate("ConfusionNet_Trace", sub, constants=dict(consts, KnownEmptyFirst=True),
                                label="ConfusionNet_Trace %s (known deviation modelled)" % label, shards=max(1, min(4, len(sub) // 1500)))
         ctx.traces_validated = before
-        later = {kf[k][0]: p for k, p in rej2 if p != DRIFT}
-    drifted = {i for i, p in rej if p == DRIFT}
-    rejected = {i for i, p in rej if p != DRIFT}
+        later = {kf[k][0]: p for k, p in rej2 if p % RD != DRIFT}
+    drifted = {i for i, p in rej if p % RD == DRIFT}
+    rejected = {i for i, p in rej if p % RD != DRIFT}
     ctx.traces_validated += len(drifted)        # property-level acceptance is what counts
     for i, tr in enumerate(traces):
         nontrivial = len(tr["nets"][-1]) > 1 and any(len(col) > 1 for col in tr["nets"][-1])
-        ctx.count(1, (tr["mode"], tr["vw"], tr["lw"], tuple((tuple(h["h"]), h["vis"], h["lm"]) for h in tr["hyps"])) if nontrivial else None)
+        ctx.count(1, (tr["mode"] + ("+reads" if "reads_plan" in tr else ""), tr["vw"], tr["lw"],
+                      tuple((tuple(h["h"]), h["vis"], h["lm"]) for h in tr["hyps"])) if nontrivial else None)
     for i in sorted(drifted):
         ctx.model_drift("network differs from the modelled pointer machine (property holds)", 1, {"hyps": traces[i]["hyps"]})
     # one representative of every signature first (only the first violations are printed / stored)
-    viol = [(idx, prog, signature_of(traces[idx], prog)) for idx, prog in rej if prog != DRIFT]
+    viol = [(idx, prog, signature_of(traces[idx], prog)) for idx, prog in rej if prog % RD != DRIFT]
     viol += [(idx, prog, "after-empty-first:" + signature_later(traces[idx], prog)) for idx, prog in sorted(later.items())]
     seen, first, rest = set(), [], []
     for v in viol:
@@ -240,7 +316,7 @@ def judge(ctx, consts, traces, label, shards=None):
     for idx, prog, sig in first + rest:
         tr = traces[idx]
         hist = {"mode": tr["mode"], "hyps": tr["hyps"], "vw": tr["vw"], "lw": tr["lw"]}
-        hist.update({k: tr[k] for k in ("session", "reuse") if k in tr})     # what replay() needs to rebuild the history before it
+        hist.update({k: tr[k] for k in ("session", "reuse", "reads_plan") if k in tr})     # what replay() needs to rebuild the history before it
         ctx.violation({"history": hist, "constants": _plain(consts), "progress": prog, "trace": tr}, sig, describe(tr, prog))
         ctx.notes.setdefault("rejections_by_signature", {}).setdefault(sig, 0)
         ctx.notes["rejections_by_signature"][sig] += 1
@@ -256,12 +332,16 @@ def run(ctx):
                 "scores 1-3; bags with/without LM scores through produce_cn_from_boh) replayed on the real confusion-network functions; "
                 "network after every addition validated by TLC; long-lived bags (grown, exported repeatedly, re-ordered with sort(), "
                 "exported again) and long-running processes (> 1024 and > 65 536 distinct additions, failing calls, the same additions "
-                "again; sampled) judged by the same clauses; non-trivial = final network has > 1 column and a column with > 1 arc")
+                "again; sampled) judged by the same clauses; histories in which the caller queries the network between the additions "
+                "(get_pivot, best_cn_path, sorted_cn_paths; normalisation / enumeration / addition on a copy): the network must be the "
+                "same after every query; non-trivial = final network has > 1 column and a column with > 1 arc")
     ctx.exhaustive = True
     ctx.assume("scores are small positive integers (weights exact in floating point); symbols are single characters",
                "reading: 'no weight is lost' = every position's weights sum to the total score added so far",
                "path enumeration checked for networks with <= %d arc combinations and denominator <= %d" % (C.MAX_PATHS, C.MAX_DEN),
-               "sorted_cn_paths on the network without positions (only '' added) is not judged")
+               "sorted_cn_paths on the network without positions (only '' added) is not judged",
+               "queries between additions: only their effect on the network the caller holds is judged (must be none), not what "
+               "they return on a network that is not normalised")
     selftest_done = False
     for b in bounds(ctx):
         db = dict(b, adds=b.get("design_adds", b["adds"]))
@@ -317,8 +397,19 @@ def run(ctx):
     rtraces = [t for t in C.run_reuse(reuse_cases) if max(len(n) for n in t["nets"]) <= 9]
     specs = session_specs(ctx)
     straces = C.run_sessions(specs)
-    good = judge(ctx, tla_constants({"alphabet": 4, "maxlen": 7, "adds": 5, "scores": [1, 2, 3]}, skip_empty_first=False),
-                 rtraces + straces, "long-lived bags and long-running processes", shards=4)
+    # the caller looks at the network between two additions (own random stream again)
+    itraces = [t for t in C.run_histories(reads_cases(ctx, random.Random(ctx.seed * 37 + 9))) if max(len(n) for n in t["nets"]) <= 9]
+    hl_consts = tla_constants({"alphabet": 4, "maxlen": 7, "adds": 5, "scores": [1, 2, 3]}, skip_empty_first=False)
+    good = judge(ctx, hl_consts, rtraces + straces + itraces, "long-lived bags, long-running processes, interleaved reads", shards=4)
+    pick = [t for t in good if "reads_plan" in t and len(t["reads"][0]) > 0 and len(t["nets"][0]) > 0]
+    if pick:
+        def corrupt_read(tr):
+            tr["reads"][0][0]["net"][0][0][1] += 500      # the first query leaves one arc of the first position half a unit heavier
+            return tr
+        ctx.selftest_corrupt("ConfusionNet_Trace", pick[len(pick) // 2], corrupt_read, constants=dict(hl_consts, KnownEmptyFirst=False))
+        ctx.sample({"config": "interleaved reads", "trace": pick[len(pick) // 2]}, limit=8)
+    ctx.notes["interleaved_reads"] = {"histories": len(itraces), "queries": sum(len(r) for t in itraces for r in t["reads"]),
+                                      "by_op": {op: sum(1 for t in itraces for r in t["reads"] for q in r if q["op"] == op) for op in C.READERS}}
     for kind in ("reuse", "session"):
         pick = [t for t in good if kind in t and (kind == "reuse" and t["reuse"]["kind"] == "resort" or kind == "session" and t["session"]["pass"] == 2)]
         if pick:
